@@ -61,7 +61,7 @@ def generate(seed, tier="quick"):
     o = stream(seed, "ops")
     cfg = {"L": o.randint(4, 16), "max_steps": 20,
            "channels": o.sample(mech.CHANNELS, o.randint(2, len(mech.CHANNELS))),
-           "synapses": o.sample(mech.SYNAPSES, o.randint(1, 3))}
+           "synapses": o.sample(mech.SYNAPSES, o.randint(1, 3)), "p_syn_clamp": 0.25}
     weights = swarm(o)
     fault_rate = o.choice([0.0, 0.08, 0.15])
     dw = DryWorld(shape)
